@@ -208,6 +208,8 @@ def run(tier="quick", seed=0, replay=None):
         return 1
     core.lean_stage(chk, "C06")
     from harness import cover
+    from harness import fingerprint
+    fingerprint.direct(chk, ['ixai/imputer/marginal_imputer.py', 'ixai/imputer/default_imputer.py', 'ixai/imputer/base.py'])
     _cv = cover.Cover(['ixai/imputer/marginal_imputer.py', 'ixai/imputer/default_imputer.py', 'ixai/imputer/base.py'])
     _cv.__enter__()
     quick = tier == "quick"
@@ -215,7 +217,7 @@ def run(tier="quick", seed=0, replay=None):
     for strategy in ("joint", "product", "default"):
         for storage_kind in ("batch", "interval", "geom", "uniform", "sequence"):
             for subset_kind in ("list", "set", "tuple", "empty", "full"):
-                for rep in range(2 if quick else 12):
+                for rep in range(chk.count(2, 12)):
                     cases.append((strategy, storage_kind, chk.rng.randint(1, 4), chk.rng.randint(1, 4), chk.rng.randint(1, 3), subset_kind))
     reqs, impls = [], []
     for c in cases:
